@@ -78,7 +78,8 @@ theorem packIdent_nailed (cx : Cx) (b : Bool) : ∀ t : Ty, t.packIdent { cx wit
   | .map o k t => by
       cases o <;> simp only [Ty.packIdent]
       rw [packIdent_nailed cx b k, packIdent_nailed cx b t]
-  | .enum _ _ | .lit _ | .opt _ | .chain _ _ | .tvar _ | .tfix _ | .tunp _ _ _ | .nt _ _ _ _ | .td _ _ _ | .dc _ _ _ => rfl
+  | .opt t => by simp only [Ty.packIdent]; exact packIdent_nailed cx b t
+  | .enum _ _ | .lit _ | .chain _ _ | .tvar _ | .tfix _ | .tunp _ _ _ | .nt _ _ _ _ | .td _ _ _ | .dc _ _ _ => rfl
 theorem identAll_nailed (cx : Cx) (b : Bool) : ∀ ts : List Ty,
     Ty.packIdent.identAll { cx with nailed := b } ts = Ty.packIdent.identAll cx ts
   | [] => rfl
